@@ -401,3 +401,102 @@ func TestVerifC02NilSpec(t *testing.T) {
 		c.End()
 	}
 }
+
+// ---- overlapping dials -----------------------------------------------------------------------
+
+// TestVerifC02Overlap: successive dials with one spec value on one UTransport while the earlier
+// connections are still open and moving data (the next dial starts 1.5 RTT into the previous
+// connection's transfer).  Fingerprints with an empty source connection ID (Chrome) are given an
+// 8-byte one: with empty IDs a transport cannot tell two live connections apart, which is a documented
+// limit and not the subject here.  The same job is run under the race detector.
+func TestVerifC02Overlap(t *testing.T) {
+	l := evlog.Open("C02")
+	defer l.Close()
+	type ovCase struct {
+		Name   string            `json:"name"`
+		QUICID string            `json:"quicid"` // or "unil"
+		Dials  int               `json:"dials"`
+		Sched  simworld.Schedule `json:"schedule"`
+	}
+	var cases []ovCase
+	ids := append([]string{"unil"}, quicworld.QUICIDNames...)
+	drop := simworld.Action{Kind: "drop"}
+	for rep := 0; rep < l.Pick(1, 6); rep++ {
+		for _, id := range ids {
+			cases = append(cases, ovCase{Name: fmt.Sprintf("overlap/clean/%s/r%d", id, rep), QUICID: id, Dials: 3 + rep%2})
+			for d := 0; d < 2; d++ {
+				for o := 0; o < l.Pick(2, 4); o++ {
+					cases = append(cases, ovCase{Name: fmt.Sprintf("overlap/k1/%s/d%d-o%d/r%d", id, d, o, rep), QUICID: id, Dials: 3,
+						Sched: simworld.Schedule{Faults: []simworld.Fault{{Dir: wiretap.Dir(d), Ordinal: o, Action: drop}}}})
+				}
+			}
+		}
+	}
+	for i, cs := range cases {
+		if !l.Mine(i) {
+			continue
+		}
+		c := l.Begin("C02/"+cs.Name, cs)
+		if c == nil {
+			continue
+		}
+		synctest.Test(t, func(t *testing.T) {
+			opt := quicworld.Options{Schedule: cs.Sched, RTT: 10 * time.Millisecond, ClientKind: "unil",
+				ServerConf: &quic.Config{MaxIdleTimeout: 60 * time.Second, HandshakeIdleTimeout: 20 * time.Second},
+				ClientConf: &quic.Config{MaxIdleTimeout: 60 * time.Second, HandshakeIdleTimeout: 20 * time.Second, KeepAlivePeriod: 3 * time.Second}}
+			if cs.QUICID != "unil" {
+				spec, err := quic.QUICID2Spec(quicworld.QUICIDs[cs.QUICID])
+				if err != nil {
+					c.Violation("C02|spec|QUICID2Spec-error|"+cs.QUICID, err.Error(), nil)
+					return
+				}
+				if spec.InitialPacketSpec.SrcConnIDLength == 0 {
+					spec.InitialPacketSpec.SrcConnIDLength = 8
+				}
+				opt.ClientKind, opt.Spec = "spec", &spec
+			}
+			ts := quicworld.TransferSpec{Streams: []quicworld.StreamSpec{{Bytes: 150000, Reply: 40000}, {Bytes: 3000, Reply: 3000}}, ChunkSeed: uint64(i)}
+			sr := quicworld.RunDialSeriesOverlap(opt, cs.Dials, ts, 5*time.Second, i*10)
+			if sr.WorldErr != nil {
+				c.Violation("C02|harness|world", sr.WorldErr.Error(), nil)
+				return
+			}
+			for _, d := range sr.Dials {
+				c.Eval(fmt.Sprintf("%s/dial%d", cs.Name, d.Index))
+				l.Count("overlap_dials", 1)
+				phase := fmt.Sprintf("overlap|dial=%d", min(d.Index+1, 2))
+				tr := map[string]any{"router": sr.RouterLog}
+				switch {
+				case d.DialErr != nil:
+					c.Violation(fmt.Sprintf("C02|spec=%s|%s|dial-error|%s", cs.QUICID, phase, c02ErrClass(d.DialErr)), fmt.Sprintf("dial %d: %v (accept: %v)", d.Index+1, d.DialErr, d.AcceptErr), tr)
+					continue
+				case d.AcceptErr != nil:
+					c.Violation(fmt.Sprintf("C02|spec=%s|%s|accept-error", cs.QUICID, phase), fmt.Sprintf("dial %d: accept: %v", d.Index+1, d.AcceptErr), tr)
+					continue
+				}
+				if d.Transfer.ClientCause != nil || d.Transfer.ServerCause != nil {
+					c.Violation(fmt.Sprintf("C02|spec=%s|%s|connection-error-during-transfer|%s", cs.QUICID, phase, c02ErrClass(d.Transfer.ClientCause)),
+						fmt.Sprintf("dial %d: client cause %v; server cause %v", d.Index+1, d.Transfer.ClientCause, d.Transfer.ServerCause), tr)
+					continue
+				}
+				for _, v := range d.Viols {
+					c.Violation(fmt.Sprintf("C02|spec=%s|%s|%s", cs.QUICID, phase, v.Sig), v.Detail, tr)
+				}
+				if !d.Transfer.Completed && len(d.Viols) == 0 {
+					c.Violation(fmt.Sprintf("C02|spec=%s|%s|transfer-incomplete", cs.QUICID, phase), fmt.Sprintf("dial %d: %+v", d.Index+1, d.Transfer.Outcomes), tr)
+				}
+				if d.ClientCauseAfterIdle != nil || d.ServerCauseAfterIdle != nil {
+					c.Violation(fmt.Sprintf("C02|spec=%s|%s|connection-error-after-transfer|%s", cs.QUICID, phase, c02ErrClass(d.ClientCauseAfterIdle)),
+						fmt.Sprintf("dial %d: 5 s after the transfers: client cause %v; server cause %v", d.Index+1, d.ClientCauseAfterIdle, d.ServerCauseAfterIdle), tr)
+					continue
+				}
+				l.Count("overlap_dials_ok", 1)
+			}
+			if lk := quicworld.BubbleGoroutines(); len(lk) > 0 {
+				c.Violation("C02|leak|goroutines-alive-after-close", lk[0], nil)
+			}
+		})
+		c.End()
+	}
+}
+
